@@ -14,26 +14,26 @@ def tiers(prop, tier):
     q = tier == 'quick'
     if prop == 'C07':
         if q:
-            return [('sse2-base', 1, 'all'), ('avx512', 1, 'all'), ('avx2-checks', 1, 'all'),
-                    ('sse2-base', 0, 20000), ('avx512', 0, 20000), ('avx2-checks', 0, 20000)]
+            return [('sse2-base@lite', 1, 'all'), ('avx512@lite', 1, 'all'), ('avx2-checks@lite', 1, 'all'),
+                    ('sse2-base@lite', 0, 20000), ('avx512@lite', 0, 20000), ('avx2-checks@lite', 0, 20000)]
         cfgs = ['sse2-base', 'sse42', 'avx', 'avx2', 'avx512', 'avx512-cxx17', 'avx2-checks', 'sse2-checks', 'avx2-dontalign',
                 'scalar', 'O0-debug', 'O3-avx2', 'clang-sse2', 'clang-avx2', 'clang-avx512']
         return [(c, 1, 'all') for c in cfgs] + [(c, 0, 300000) for c in cfgs] + [('asan-sse2', 1, 'all'), ('asan-avx2', 1, 'all')]
     if prop == 'C05':
         if q:
-            return [('sse2-base', 0, 30000), ('avx512', 0, 30000), ('sse2-vecassign', 0, 30000)]
+            return [('sse2-base@lite', 0, 30000), ('avx512@lite', 0, 30000), ('sse2-vecassign@lite', 0, 30000)]
         cfgs = ['sse2-base', 'sse42', 'avx', 'avx2', 'avx512', 'avx512-cxx17', 'sse2-vecassign', 'avx2-vecassign', 'avx512-vecassign',
                 'avx2-dontalign', 'scalar', 'O0-debug', 'O3-avx2', 'clang-sse2', 'clang-avx2', 'clang-avx512']
         return [(c, 0, 400000) for c in cfgs] + [('asan-sse2', 0, 20000), ('asan-avx2', 0, 20000)]
     if prop == 'C18':
         if q:
-            return [('sse2-base', 0, 30000), ('avx512', 0, 30000), ('avx2', 0, 30000)]
+            return [('sse2-base@lite', 0, 30000), ('avx512@lite', 0, 30000), ('avx2@lite', 0, 30000)]
         cfgs = ['sse2-base', 'sse42', 'avx', 'avx2', 'avx512', 'avx512-cxx17', 'sse2-vecassign', 'avx512-vecassign',
                 'avx2-dontalign', 'scalar', 'O0-debug', 'O3-avx2', 'clang-sse2', 'clang-avx2', 'clang-avx512']
         return [(c, 0, 400000) for c in cfgs] + [('asan-sse2', 0, 20000), ('asan-avx2', 0, 20000)]
     if prop == 'C20':
         if q:
-            return [('sse2-base', 0, 30000), ('avx512', 0, 30000), ('avx2', 0, 30000)]
+            return [('sse2-base@lite', 0, 30000), ('avx512@lite', 0, 30000), ('avx2@lite', 0, 30000)]
         cfgs = ['sse2-base', 'sse42', 'avx', 'avx2', 'avx512', 'avx512-cxx17', 'avx2-dontalign', 'scalar', 'O0-debug', 'O3-avx2',
                 'clang-sse2', 'clang-avx2', 'clang-avx512']
         return [(c, 0, 400000) for c in cfgs] + [('asan-sse2', 0, 20000), ('asan-avx2', 0, 20000)]
@@ -264,7 +264,11 @@ def write_shards(bdir, ns, headers, prelude, ops, regmacro, simd_all=None):
 
 def gen_memsim(bdir, config, flags):
     stmts = ['reg_simd_all(v);']
-    stmts += memsim_ops(config, flags)
+    ops = memsim_ops(config, flags)
+    if config.endswith('@lite'):
+        # quick tier: every second catalogue entry (exempt and bad-index families kept whole)
+        ops = [o for i, o in enumerate(ops) if i % 2 == 0 or 'F_EXEMPT' in o or 'F_BADINDEX' in o]
+    stmts += ops
     files, decl = write_shards(bdir, 'memsim', ['memsim.h', 'ops_simd.h', 'ops_map.h', 'ops_own.h', 'ops_misc.h'], 'using namespace Fastor;\n', stmts, None)
     with open(os.path.join(bdir, 'shards.inc'), 'w') as f:
         f.write('namespace memsim {\n')
@@ -274,7 +278,225 @@ def gen_memsim(bdir, config, flags):
     return files
 
 
+
+
+# =============================================================================== viewsim catalogue
+V_SHAPES = {
+    1: [(3,), (5,), (8,), (9,), (12,), (16,), (17,), (33,)],
+    2: [(2, 2), (3, 4), (4, 5), (3, 8), (5, 9), (2, 16), (3, 17), (4, 4), (8, 8)],
+    3: [(2, 2, 2), (2, 3, 4), (2, 3, 8), (3, 2, 9), (2, 2, 17)],
+    4: [(2, 2, 2, 3), (2, 2, 3, 8)],
+}
+
+
+def axis_ranges(n):
+    """candidate compile-time ranges (F,L,S) on an axis of extent n, without the full range"""
+    out = []
+    for k in (4, 8, 16, 32):
+        if k < n:
+            out.append((0, k, 1)); out.append((n - k, n, 1))
+    if n >= 2:
+        out += [(1, n, 1), (0, n - 1, 1), (n - 1, n, 1), (0, 1, 1)]
+    if n >= 3:
+        out += [(0, n, 2), (1, n, 2), (1, n - 1, 1)]
+    if n >= 5:
+        out += [(0, n - 1, 2), (1, n, 3), (2, min(n, 7), 1)]
+    seen = []
+    for r in out:
+        if r not in seen:
+            seen.append(r)
+    return seen
+
+
+def ext(r):
+    f, l, s = r
+    return (l - f + s - 1) // s
+
+
+def fs(r):
+    return f'fseq<{r[0]},{r[1]},{r[2]}>'
+
+
+def src_for(r, n, g):
+    """another range of equal extent on an axis of extent n"""
+    e = ext(r)
+    cands = []
+    for s in (1, 2, 3):
+        span = (e - 1) * s + 1
+        for f in range(0, n - span + 1):
+            cands.append((f, f + span, s))
+    cands = [c for c in cands if c != r] or [r]
+    return cands[next(g) % len(cands)]
+
+
+def viewsim_universe(t, shape, config, flags):
+    """returns (typename, list of (opname, family, kind_expr, props), list of fix registrations)"""
+    R = len(shape)
+    g = _lcg(hash((t, shape)) & 0xFFFFFF if False else sum(shape) * 131 + len(t) * 7 + R)
+    dims = ','.join(map(str, shape))
+    uname = f'{t},{dims}'
+    ops = [(f'dyn_write<{uname}>', 'dyn_write', 'K_DYN_WRITE', 'P_C05'), (f'elem_write<{uname}>', 'elem_write', 'K_ELEM_WRITE', 'P_C05')]
+    if R <= 3:
+        ops += [(f'dyn_alias<{uname}>', 'dyn_alias', 'K_DYN_ALIAS', 'P_C18'), (f'h_create<{uname}>', 'handle', 'K_H_CREATE', 'P_C18'),
+                (f'h_noalias<{uname}>', 'handle', 'K_H_NOALIAS', 'P_C18'), (f'h_assign<{uname}>', 'handle_assign', 'K_H_ASSIGN', 'P_C18')]
+    if R == 1:
+        ops += [(f'idx_alias<{uname}>', 'idx_alias', 'K_IDX_ALIAS', 'P_C18'), (f'mask_alias<{uname}>', 'mask_alias', 'K_MASK_ALIAS', 'P_C18')]
+    if R == 2 and shape[0] == shape[1]:
+        ops += [(f'diag_coinc<{uname}>', 'diag_coincident', 'K_DIAG', 'P_C18')]
+    fix = []
+    full = [(0, -1, 1)]
+
+    def name(rs):
+        return '|'.join(f'{r[0]}:{r[1]}:{r[2]}' for r in rs)
+    # ---- C05 fixed writes
+    writes = []
+    per_axis = [axis_ranges(n) for n in shape]
+    if R == 1:
+        writes = [[r] for r in per_axis[0]] + [full]
+    else:
+        # vary one axis at a time, the others full; plus mixed combinations
+        for k in range(R):
+            for r in per_axis[k][:6]:
+                w = [(0, -1, 1)] * R
+                w[k] = r
+                writes.append(w)
+        for _ in range(6):
+            writes.append([per_axis[k][next(g) % len(per_axis[k])] for k in range(R)])
+        writes.append([(0, -1, 1)] * R)
+    limit = 12 if R == 1 else 10
+    # deterministic thinning, keep order
+    if len(writes) > limit:
+        step = len(writes) / limit
+        writes = [writes[int(i * step)] for i in range(limit)]
+    for w in writes:
+        src = []
+        for k, r in enumerate(w):
+            n = shape[k]
+            rr = (0, n, 1) if r == (0, -1, 1) else r
+            src.append(src_for(rr, n, g))
+        nm = f'fix_write<{uname}|{name(w)}>'
+        fix.append((nm, 'fix_write', f'FixWrite<U, seqs<{",".join(fs(r) for r in w)}>, seqs<{",".join(fs(r) for r in src)}>>::go', 'P_C05'))
+    # ---- C18 fixed aliasing pairs (rank <= 3)
+    if R <= 3:
+        pairs = []
+        for k in range(R):
+            n = shape[k]
+            if n < 2:
+                continue
+            for d in (1, 2, 4):
+                if d < n:
+                    a = (d, n, 1); b = (0, n - d, 1)
+                    pairs.append((k, a, b)); pairs.append((k, b, a))
+            if n >= 4:
+                pairs.append((k, (0, n - 1, 2), (1, n, 2))); pairs.append((k, (1, n, 2), (0, n - 1, 2)))
+            if n >= 5:
+                e = (n - 1) // 2
+                pairs.append((k, (0, e, 1), (1, 2 * e, 2)))          # contiguous destination, strided source
+        lim = 10 if R == 1 else 9
+        if len(pairs) > lim:
+            stp = len(pairs) / lim
+            pairs = [pairs[int(i * stp)] for i in range(lim)]
+        for (k, a, b) in pairs:
+            dst = [(0, -1, 1)] * R; srcr = [(0, -1, 1)] * R
+            dst[k] = a; srcr[k] = b
+            nm = f'fix_alias<{uname}|{name(dst)}<-{name(srcr)}>'
+            fix.append((nm, 'fix_alias', f'FixAlias<U, seqs<{",".join(fs(r) for r in dst)}>, seqs<{",".join(fs(r) for r in srcr)}>, false>::go', 'P_C18'))
+        # coincident clause: identical ranges, no noalias()
+        coin = []
+        for k in range(R):
+            for r in per_axis[k][:2]:
+                w = [(0, -1, 1)] * R
+                w[k] = r
+                coin.append(w)
+        for w in coin[:3]:
+            nm = f'fix_coincident<{uname}|{name(w)}>'
+            fix.append((nm, 'fix_alias', f'FixAlias<U, seqs<{",".join(fs(r) for r in w)}>, seqs<{",".join(fs(r) for r in w)}>, true>::go', 'P_C18'))
+    return uname, ops, fix
+
+
+def viewsim_universes(config, flags, dense=True):
+    us = []
+    for R in (1, 2, 3, 4):
+        for i, shape in enumerate(V_SHAPES[R]):
+            for j, t in enumerate(ALLT):
+                if not dense and (i + j) % 2:
+                    continue
+                us.append((t, shape))
+    return us
+
+
+def gen_viewsim(bdir, config, flags):
+    files = []; decl = []
+    for ui, (t, shape) in enumerate(viewsim_universes(config, flags, dense=not config.endswith('@lite'))):
+        uname, ops, fix = viewsim_universe(t, shape, config, flags)
+        fn = f'fsim_shard_{ui}'
+        p = os.path.join(bdir, f'shard_{ui:03d}.cpp')
+        with open(p, 'w') as f:
+            f.write('#include "fixops.h"\nnamespace viewsim {\n')
+            f.write(f'using U = Uni<{uname}>;\n')
+            f.write(f'static UniverseBase *make_u() {{ U *u = new U("{uname}");\n')
+            for (nm, fam, fnx, props) in fix:
+                f.write(f'    u->fix.push_back(FixOp<U>{{"{nm}", "{fam}", &{fnx}}});\n')
+            f.write('    return u; }\n')
+            f.write(f'void {fn}(Registry &r) {{\n    uint32_t ui = (uint32_t)r.factories.size(); r.factories.push_back(&make_u); r.uni_names.push_back("{uname}"); r.uni_ops.emplace_back();\n')
+            f.write('    auto add = [&](const char *n, const char *fam, uint32_t kind, uint32_t props) { r.uni_ops[ui].push_back((uint32_t)r.ops.size()); r.ops.push_back(OpDesc{n, fam, ui, kind, props}); };\n')
+            for (nm, fam, kind, props) in ops:
+                f.write(f'    add("{nm}", "{fam}", {kind}, {props});\n')
+            for k, (nm, fam, fnx, props) in enumerate(fix):
+                f.write(f'    add("{nm}", "{fam}", K_FIX_BASE + {k}, {props});\n')
+            f.write('}\n}\n')
+        files.append(p); decl.append(fn)
+    with open(os.path.join(bdir, 'shards.inc'), 'w') as f:
+        f.write('namespace viewsim {\n')
+        for d in decl:
+            f.write(f'void {d}(Registry &);\n')
+        f.write('static const RegFn SHARD_FNS[] = {' + ', '.join(decl) + '};\n}\n')
+    return files
+
+
+# =============================================================================== mapsim catalogue
+M_SHAPES = [((6,), (2, 3), (3, 2)), ((12,), (3, 4), (2, 2, 3)), ((16,), (4, 4), (2, 2, 4)), ((17,), (1, 17), (17, 1)), ((24,), (4, 6), (2, 3, 4)),
+            ((9,), (3, 3), (1, 9)), ((35,), (5, 7), (7, 5)), ((64,), (8, 8), (4, 4, 4)), ((30,), (2, 15), (2, 3, 5)), ((48,), (6, 8), (2, 2, 3, 4)),
+            ((7,), (7, 1), (1, 1, 7)), ((33,), (3, 11), (11, 3))]
+M_KINDS = ['K_SCALAR', 'K_TENSOR', 'K_EXPR', 'K_SELF_EXPR', 'K_METHOD', 'K_ELEM', 'K_FIXVIEW', 'K_DYNVIEW', 'K_REDUCE', 'K_READ_EXPR', 'K_MATMUL',
+           'K_REWRAP', 'K_SOURCE_WRITE', 'K_CTOR_LAYOUT']
+
+
+def gen_mapsim(bdir, config, flags):
+    files = []; decl = []
+    lite = config.endswith('@lite')
+    ui = 0
+    for i, shapes in enumerate(M_SHAPES):
+        for j, t in enumerate(ALLT):
+            if lite and (i + j) % 2:
+                continue
+            sh = ', '.join('shape_<' + ','.join(map(str, s)) + '>' for s in shapes)
+            uname = f'{t}|' + '|'.join('x'.join(map(str, s)) for s in shapes)
+            fn = f'fsim_shard_{ui}'
+            p = os.path.join(bdir, f'shard_{ui:03d}.cpp')
+            with open(p, 'w') as f:
+                f.write('#include "universe.h"\nnamespace mapsim {\n')
+                f.write(f'using U = MU<{t}, {sh}>;\n')
+                f.write(f'static UniverseBase *make_u() {{ return new U("{uname}"); }}\n')
+                f.write(f'void {fn}(Registry &r) {{\n    uint32_t ui = (uint32_t)r.factories.size(); r.factories.push_back(&make_u); r.uni_names.push_back("{uname}"); r.uni_ops.emplace_back();\n')
+                for k in M_KINDS:
+                    nm = f'{k[2:].lower()}<{uname}>'
+                    f.write(f'    r.uni_ops[ui].push_back((uint32_t)r.ops.size()); r.ops.push_back(OpDesc{{"{nm}", "{k[2:].lower()}", ui, {k}}});\n')
+                f.write('}\n}\n')
+            files.append(p); decl.append(fn); ui += 1
+    with open(os.path.join(bdir, 'shards.inc'), 'w') as f:
+        f.write('namespace mapsim {\n')
+        for d in decl:
+            f.write(f'void {d}(Registry &);\n')
+        f.write('static const RegFn SHARD_FNS[] = {' + ', '.join(decl) + '};\n}\n')
+    return files
+
+
 def generate(sim, bdir, config, flags):
     if sim == 'memsim':
         return gen_memsim(bdir, config, flags)
+    if sim == 'viewsim':
+        return gen_viewsim(bdir, config, flags)
+    if sim == 'mapsim':
+        return gen_mapsim(bdir, config, flags)
     raise KeyError(sim)
